@@ -197,6 +197,91 @@ fn handler_checks(sim: &Sim, i: usize, out: &mut Vec<(String, String)>) {
     }
 }
 
+/// The event channels between the behaviour and the connection handlers, as `Model/ClientLink`
+/// assumes them (libp2p-swarm's side of the contract), checked on one node's logs: per connection
+/// the events the behaviour received from the handler are the events the handler returned, in
+/// order, none twice, none invented (a prefix: the last ones may still be under way when the run
+/// ends); and the wantlists a handler was given are wantlists the behaviour handed to that very
+/// connection, in order (some may be dropped: the connection was closing).
+fn channel_checks(sim: &Sim, i: usize, out: &mut Vec<(String, String)>, stats: &mut BTreeMap<String, u64>) {
+    let rec = sim.nodes[i].rec.lock().unwrap();
+    let mut emitted: BTreeMap<String, Vec<String>> = BTreeMap::new();
+    let mut taken: BTreeMap<String, Vec<String>> = BTreeMap::new();
+    for l in &rec.handler {
+        let mut it = l.splitn(3, ' ');
+        let c = it.next().unwrap_or("").trim_start_matches("c=").to_string();
+        let _p = it.next();
+        let rest = it.next().unwrap_or("");
+        if let Some(r) = rest.strip_prefix("out report ").or_else(|| rest.strip_prefix("close report ")) {
+            emitted.entry(c).or_default().push(format!("sending {r}"));
+        } else if rest == "out closing" || rest == "close closing" {
+            emitted.entry(c).or_default().push("closing".into());
+        } else if let Some(w) = rest.strip_prefix("in send-wantlist ") {
+            // "#k full=F entries=a,b!"
+            let f: Vec<&str> = w.split(' ').collect();
+            let full = f.get(1).copied().unwrap_or("").trim_start_matches("full=").to_string();
+            let mut es: Vec<String> = f.get(2).copied().unwrap_or("").trim_start_matches("entries=").split(',').filter(|x| !x.is_empty()).map(|x| x.to_string()).collect();
+            es.sort();
+            taken.entry(c).or_default().push(format!("{full}|{}", es.join(",")));
+        }
+    }
+    let mut received: BTreeMap<String, Vec<String>> = BTreeMap::new();
+    let mut handed: BTreeMap<String, Vec<String>> = BTreeMap::new();
+    for (o, im) in rec.ops.iter().zip(rec.imp.iter()) {
+        let f: Vec<&str> = o.split(' ').collect();
+        if f.len() == 5 && f[1] == "sending" {
+            received.entry(f[3].to_string()).or_default().push(format!("sending {}", f[4]));
+        } else if f.len() == 4 && f[1] == "closing" {
+            received.entry(f[3].to_string()).or_default().push("closing".into());
+        } else if f.len() >= 2 && f[1] == "drain" {
+            let head = im.split(" ## ").next().unwrap_or("");
+            for t in head.split(' ') {
+                // send:p:c:F|U:wh=..:wb=..:cn=..
+                let g: Vec<&str> = t.split(':').collect();
+                if g.len() == 7 && g[0] == "send" {
+                    let mut es: Vec<String> = vec![];
+                    for (k, suffix) in [(4usize, ""), (5, ""), (6, "!")] {
+                        let body = g[k].split('=').nth(1).unwrap_or("");
+                        for e in body.split(|ch| ch == ',' || ch == '+').filter(|x| !x.is_empty()) {
+                            es.push(format!("{e}{suffix}"));
+                        }
+                    }
+                    es.sort();
+                    handed.entry(g[2].to_string()).or_default().push(format!("{}|{}", if g[3] == "F" { "1" } else { "0" }, es.join(",")));
+                }
+            }
+        }
+    }
+    for (c, got) in &received {
+        let sent = emitted.get(c).cloned().unwrap_or_default();
+        *stats.entry("sim.channel.events-compared".into()).or_default() += got.len() as u64;
+        if got.len() > sent.len() || got[..] != sent[..got.len()] {
+            let k = got.iter().zip(sent.iter()).position(|(a, b)| a != b).unwrap_or(sent.len().min(got.len()));
+            out.push(("C14".into(), format!("node {i} connection {c}: the behaviour received handler event #{k} `{}` but the handler returned `{}` at that position (events of one connection are lost, repeated or reordered)", got.get(k).cloned().unwrap_or("-".into()), sent.get(k).cloned().unwrap_or("nothing".into()))));
+        }
+    }
+    for (c, tk) in &taken {
+        let hd = handed.get(c).cloned().unwrap_or_default();
+        *stats.entry("sim.channel.wantlists-compared".into()).or_default() += tk.len() as u64;
+        // `tk` must be a subsequence of `hd`
+        let mut j = 0;
+        let mut ok = true;
+        for t in tk {
+            while j < hd.len() && &hd[j] != t {
+                j += 1;
+            }
+            if j == hd.len() {
+                ok = false;
+                break;
+            }
+            j += 1;
+        }
+        if !ok {
+            out.push(("C14".into(), format!("node {i} connection {c}: the handler was given wantlists {tk:?} but the behaviour handed {hd:?} to this connection (a wantlist reached a connection it was not handed to, twice, or out of order)")));
+        }
+    }
+}
+
 /// Wantlists node a handed to connections of peer b (sender side, from the behaviour trace) and
 /// the wantlists b received from a (receiver side).
 fn wantlist_flows(sim: &Sim, a: usize, b: usize) -> (Vec<(String, u64)>, Vec<String>) {
@@ -498,6 +583,7 @@ pub fn run_one(seed: u64, cfg: &SimCfg) -> RunResult {
     // C14: handler-level protocol, delivery of every handed wantlist, agreement of records
     for i in 0..n {
         handler_checks(&sim, i, &mut violations);
+        channel_checks(&sim, i, &mut violations, &mut stats);
     }
     for a in 0..n {
         for b in 0..n {
